@@ -52,26 +52,30 @@ theorem enet_aux (kV kG : ℝ → ℝ → ℝ) (hk : ∀ t x z, kV t z ≥ kV t 
   have hN : (0 : ℝ) < (t.length : ℝ) := by
     have : 0 < t.length := List.length_pos_iff.2 hne
     exact_mod_cast this
-  set N : ℝ := (t.length : ℝ) with hNd
   have hox : (enetOutputs A b x).length = t.length := by rw [enetOutputs_length, hA]
   have hoz : (enetOutputs A b z).length = t.length := by rw [enetOutputs_length, hA]
   -- the loss part
   have hloss := sum2_subgrad kV kG hk t (enetOutputs A b x) (enetOutputs A b z) hox hoz
   rw [enetOutputs_vsub A b z x hl] at hloss
-  set gg := map2 kG t (enetOutputs A b x) with hgg
-  have hggl : gg.length = t.length := by rw [hgg, map2_length _ _ _ hox.symm, hox]
-  have hadj := tmulVec_adjoint x.length A gg (vsub z x) hrows (by rw [hA, hggl])
+  have hggl : (map2 kG t (enetOutputs A b x)).length = t.length := by rw [map2_length _ _ _ hox.symm, hox]
+  have hadj := tmulVec_adjoint x.length A (map2 kG t (enetOutputs A b x)) (vsub z x) hrows (by rw [hA, hggl])
   -- the l1 part and the ridge part
   have hl1 := l1_subgrad x z hl
   have hs : Real.sqrt a2 * Real.sqrt a2 = a2 := Real.mul_self_sqrt h2
   have hnorm := norm_vsub z x hl
+  have hT : (tmulVec x.length A (map2 kG t (enetOutputs A b x))).length = x.length :=
+    tmulVec_length x.length A _ hrows
+  have hlen2 : (smul a1 (x.map sign')).length = (smul a2 x).length := by simp
+  have hlen1 : ((tmulVec x.length A (map2 kG t (enetOutputs A b x))).map (fun v => v / (t.length : ℝ))).length =
+      (vadd (smul a1 (x.map sign')) (smul a2 x)).length := by
+    rw [List.length_map, vadd_length _ _ hlen2, smul_length]; exact hT
   unfold enetF enetG
   simp only [tsqrt_eq]
   rw [dot_smul_smul, dot_smul_smul, hs]
-  have hT : (tmulVec x.length A gg).length = x.length := tmulVec_length x.length A gg hrows
-  rw [dot_vadd_left _ _ _ (by simp [hT]), dot_vadd_left _ _ _ (by simp), dot_map_div, hadj, dot_smul_left,
+  rw [dot_vadd_left _ _ _ hlen1, dot_vadd_left _ _ _ hlen2, dot_map_div, hadj, dot_smul_left,
     dot_smul_left, dot_vsub_right x z x hl]
-  have hdiv : sum2 kV t (enetOutputs A b z) / N ≥ sum2 kV t (enetOutputs A b x) / N + dot gg (mulVec A (vsub z x)) / N := by
+  have hdiv : sum2 kV t (enetOutputs A b z) / (t.length : ℝ) ≥ sum2 kV t (enetOutputs A b x) / (t.length : ℝ)
+      + dot (map2 kG t (enetOutputs A b x)) (mulVec A (vsub z x)) / (t.length : ℝ) := by
     rw [← add_div]; exact div_le_div_of_nonneg_right hloss (le_of_lt hN)
   have hl1' : a1 * sumL (z.map abs') ≥ a1 * sumL (x.map abs') + a1 * dot (x.map sign') (vsub z x) := by
     rw [← mul_add]; exact mul_le_mul_of_nonneg_left hl1 h1
